@@ -120,7 +120,7 @@ def cmd_check(prop, tier):
     by_sig = {}
     for idx, v in sorted(agg.viol, key=lambda x: x[0]):
         by_sig.setdefault(runner.signature(v), []).append((idx, v))
-    known_hits = {}
+    known_hits = dict(agg.known)
     unlisted = []
     for sig, lst in by_sig.items():
         rest = []
